@@ -32,6 +32,18 @@ def gen_movies(rng, tier):
                            "cts": [(-4, 0, 9)[j % 3] for j in range(n)] if with_cts else None, "k0": 1 + 3 * f, "moof_flag": moof_flag}])
             t += sum(durs) if durs else n * (tfhd_dur if tfhd_dur is not None else 50)
         movies.append(([{"id": 1, "kind": "avc", "ts": 1000}], frags, 50))
+    # two (three) track fragments of the same track inside one movie fragment, every base mode, with and without a following fragment
+    for base, nsame, follow, per_dur in itertools.product(bases, (2, 3), (False, True), (False, True)):
+        frags, t, k0 = [[]], 500, 1
+        for j in range(nsame):
+            n = 2 + (j % 2)
+            durs = [5 + j + q for q in range(n)] if per_dur else None
+            frags[0].append({"track_id": 1, "base": base, "tfhd_dur": 25, "tfdt": t, "tfdt_v": 0, "durations": durs, "sizes": [2 + j + q for q in range(n)], "cts": None, "k0": k0})
+            t += sum(durs) if durs else n * 25
+            k0 += n
+        if follow:
+            frags.append([{"track_id": 1, "base": base, "tfhd_dur": 25, "tfdt": t, "tfdt_v": 0, "durations": None, "sizes": [4, 1], "cts": None, "k0": k0}])
+        movies.append(([{"id": 1, "kind": "avc", "ts": 1000}], frags, 50))
     n_rand = 150 if tier == "quick" else 3000
     for _ in range(n_rand):
         ntr = rng.choice([1, 2, 2])
@@ -42,7 +54,11 @@ def gen_movies(rng, tier):
         cnt = {t["id"]: 1 for t in tracks}
         for f in range(rng.randint(1, 3)):
             fr = []
-            for t in rng.sample(tracks, rng.randint(1, ntr)):
+            chosen = rng.sample(tracks, rng.randint(1, ntr))
+            # several track fragments of the same track in one movie fragment (legal: 14496-12 8.8.6), in any position
+            while rng.random() < 0.3 and len(chosen) < 4:
+                chosen.insert(rng.randint(0, len(chosen)), rng.choice(chosen))
+            for t in chosen:
                 n = rng.choice([0, 1, 2, 3, 5])
                 per = rng.random() < 0.5
                 tf = {"track_id": t["id"], "base": rng.choice(bases), "tfhd_dur": rng.choice([None, None, 20, 1001]), "tfdt": clock[t["id"]],
@@ -172,8 +188,8 @@ def check(rep):
                 ties.append(("reader_model_%s_%d" % (profile, len(ties)), dict(t2, kind="correspondence", case="movie %d %s" % (mi, kind), file=cases[ci]["data"].hex(), frag=cases[ci].get("frag", b"").hex())))
     rep.coverage.update({"evaluations": 2 * len(cases), "distinct_nontrivial": len(distinct),
                          "rule": "shape-exhaustive one-track movies: base {moof start, explicit base-data-offset, explicit base with negative data offsets} x default-base-is-moof flag set/clear (ignored when an explicit base is present) x tfhd default duration "
-                                 "present/absent x per-sample durations present/absent x composition offsets present/absent x tfdt version 0/1 x 1-2 fragments; plus seeded random movies "
-                                 "(1-2 tracks, 1-3 fragments, 0-5 samples per run, empty runs, 64-bit decode times, free boxes between fragments); each as one stream and as "
+                                 "present/absent x per-sample durations present/absent x composition offsets present/absent x tfdt version 0/1 x 1-2 fragments; 2-3 track fragments of one track inside one movie fragment x base mode x following fragment; plus seeded random movies "
+                                 "(1-2 tracks, 1-3 fragments, repeated tracks inside a fragment, 0-5 samples per run, empty runs, 64-bit decode times, free boxes between fragments); each as one stream and as "
                                  "init segment + media segment (read_fragment_header); debug and release; non-trivial = distinct run lists with at least one sample",
                          "input_distribution": stats})
     rep.coverage["samples"] = [{"runs": meta[0][3]}, {"runs": meta[len(meta) // 2][3]}]
